@@ -19,8 +19,9 @@ def b (x : Bool) : String := if x then "1" else "0"
 /-- ops:
   `umecert ε ws <x> <y> R(9) t(3) c` → `ortho det t sym psd scale all refusalClass`
   `refuse <x> <y>`                   → `refuses refusalClass`
-  `formulas <x> <y> R(9) c`          → `t*(3) trA var`   (t* = μy − c·R·μx)
-  `resid <x> <y> R(9) t(3) c`        → rational residual -/
+  `formulas <x> <y> R(9) c`          → `t*(3) trA var pd`   (t* = μy − c·R·μx; pd = uniqueness condition certPD)
+  `resid <x> <y> R(9) t(3) c`        → rational residual
+  `approx ws <x> <y> R₁(9) t(3) c q(4)` → slacks and the optimality bound of `approxReport`, or `NONE` -/
 def handle (op : String) (args : List String) : Option String :=
   match op, args with
   | "umecert", eps :: ws :: rest => do
@@ -38,6 +39,23 @@ def handle (op : String) (args : List String) : Option String :=
       let r := [certOrtho eps R, certDet eps R, certT eps x y R t c, certSym eps x y R, certPsd eps x y R,
                 certScale eps ws x y R c]
       some (" ".intercalate ((r ++ [r.all id]).map b) ++ " " ++ toString (refusalClass x y))
+  | "approx", ws :: rest => do
+      -- `approx ws <x> <y> R₁(9) t(3) c qw qx qy qz` → `eta e2 e3 e4 e5 gap b var_y` or `NONE`
+      let ws := ws == "1"
+      let (x, rest) ← readPoints rest
+      let (y, rest) ← readPoints rest
+      let (rr, rest) ← takeN 9 rest
+      let R ← (parseRats? rr).bind M3.ofList
+      let (tt, rest) ← takeN 3 rest
+      let t ← (parseRats? tt).bind V3.ofList
+      match rest with
+      | [c, qw, qx, qy, qz] => do
+          let c ← parseRat? c; let qw ← parseRat? qw; let qx ← parseRat? qx
+          let qy ← parseRat? qy; let qz ← parseRat? qz
+          match approxReport ws x y R t c qw qx qy qz with
+          | none => some "NONE"
+          | some r => some (showRats [r.eta, r.e2, r.e3, r.e4, r.e5, r.gap, r.b, var y])
+      | _ => none
   | "refuse", rest => do
       let (x, rest) ← readPoints rest
       let (y, _) ← readPoints rest
@@ -50,7 +68,7 @@ def handle (op : String) (args : List String) : Option String :=
       let R ← (parseRats? rr).bind M3.ofList
       let c ← rest.head?.bind parseRat?
       if x.length != y.length || x.isEmpty then some "REFUSED" else
-      some (showRats ((tFormula x y R c).toList ++ [M3.trace (amat x y R), var x]))
+      some (showRats ((tFormula x y R c).toList ++ [M3.trace (amat x y R), var x]) ++ " " ++ b (certPD x y R))
   | "resid", rest => do
       let (x, rest) ← readPoints rest
       let (y, rest) ← readPoints rest
